@@ -31,6 +31,17 @@ static int      g_round_now; static bool g_cancel_round[3]; static unsigned g_su
 static bool     g_sel_called[VM_NS], g_rank_called[VM_NS], g_util_called[VM_NS];
 static uint8_t  g_sel_val[VM_NS]; static int8_t g_rank_val[VM_NS]; static float g_util_val[VM_NS];
 static unsigned g_rng_draws; static float g_rng_val;
+// C06 plans: the keyed actor succeeds / fails in its update(); heads record the notifications they receive
+static int      g_actor = -1, g_action = 0;      // action: 1 = succeed(), 2 = fail()
+static uint8_t  g_plan_succeeded[VM_NS], g_plan_failed[VM_NS];
+// C14 payloads: the step's requests in order (destination, has payload, value); checked in guards, on enter and afterwards
+static int      g_pay_n; static int g_pay_dest[2]; static bool g_pay_has[2]; static int32_t g_pay_val[2];
+// C16: every user-defined callback in order (state, Method), and what the logger was told
+static uint8_t  g_trace_state[160], g_trace_method[160]; static unsigned g_trace_len;
+static uint8_t  g_log_state[200], g_log_method[200]; static unsigned g_log_len;
+static unsigned g_log_transitions, g_log_cancels, g_requests_issued, g_cancels_issued; static int g_log_last_target = -1, g_log_last_type = -1;
+static bool     g_deterministic;             // guards never cancel (two-run neutrality check)
+static void trace_push(int s, Method m) { if (g_trace_len < sizeof g_trace_state) { g_trace_state[g_trace_len] = (uint8_t) s; g_trace_method[g_trace_len] = (uint8_t) m; } ++g_trace_len; }
 // C05 delivery order
 static uint8_t  g_seq_state[4 * VM_NS + 4], g_seq_phase[4 * VM_NS + 4]; static unsigned g_seq_len;
 static int      g_consumer = -1, g_consume_phase = -1;   // which state consumes in which phase (symbolic choice made by the harness)
@@ -45,7 +56,22 @@ struct Ev { int tag; };
 template <int ID>
 struct St : FSM::State {
   using Base = FSM::State;
+#ifdef VM_PAYLOAD
+  template <typename TS> static void check_payloads(const TS& ts, bool all_present) {
+    if (g_pay_n == 0) return;
+    if (all_present) VASSERT(C14, ts.count() == (unsigned) g_pay_n, "guards see exactly the step's requests as pending");
+    for (unsigned i = 0; i < ts.count() && i < 2; ++i) {
+      VASSERT(C14, ts[i].destination == (StateID) g_pay_dest[i], "requests keep their order");
+      const int32_t* p = ts[i].payload();
+      if (g_pay_has[i]) VASSERT(C14, p != nullptr && *p == g_pay_val[i], "the payload of a request is delivered unchanged (payloads of different requests never mix)");
+      else VASSERT(C14, p == nullptr, "a request without a payload exposes none");
+    }
+  }
+#endif
   template <typename GC> static void guard_common(GC& c, bool is_entry) {
+#ifdef VM_PAYLOAD
+    check_payloads(c.pendingTransitions(), true);
+#endif
     VASSERT(C09, !g_guards_forbidden, "replay does not consult guards");
     ++g_guard_calls; g_in_processing = true;
     int round = 1;
@@ -55,26 +81,32 @@ struct St : FSM::State {
     if (ID == g_sub_guard && is_entry == g_sub_is_entry && (g_sub_forever || (round == 1 && !g_sub_done))) {
       g_sub_done = true; ++g_sub_guard_calls; cancel = true; c.cancelPendingTransitions(); c.changeTo((StateID) g_sub_dest);
     } else if (g_sub_guard >= 0 && round == 1) { cancel = false;          // substitution jobs: in round 1 only the keyed guard vetoes (keeps the request queue concrete, DESIGN L2)
-    } else { cancel = nd_bool(); if (cancel) c.cancelPendingTransitions(); }
-    if (cancel) { g_cancel_round[round] = true; g_round_cancelled = true; }
+    } else { cancel = g_deterministic ? false : nd_bool(); if (cancel) c.cancelPendingTransitions(); }
+    if (cancel) { g_cancel_round[round] = true; g_round_cancelled = true; ++g_cancels_issued; }
   }
-  void entryGuard(typename Base::GuardControl& c) { g_entry_guard_ran[ID] = true; guard_common(c, true); }
+  void entryGuard(typename Base::GuardControl& c) { trace_push(ID, Method::ENTRY_GUARD); g_entry_guard_ran[ID] = true; guard_common(c, true); }
   void exitGuard(typename Base::GuardControl& c) {
     VASSERT(C03, g_entered[ID], "exitGuard is delivered only to an entered state");
-    g_exit_guard_ran[ID] = true; guard_common(c, false);
+    trace_push(ID, Method::EXIT_GUARD); g_exit_guard_ran[ID] = true; guard_common(c, false);
   }
-  void enter(typename Base::PlanControl&) {
+  void enter(typename Base::PlanControl& c) {
+#ifdef VM_PAYLOAD
+    if (g_pay_n) { check_payloads(c.currentTransitions(), false); VASSERT(C14, c.currentTransitions().count() == (unsigned) g_pay_n, "states being entered read the step's transitions from currentTransitions()"); }
+#endif
+    (void) c; trace_push(ID, Method::ENTER);
     VASSERT(C03, !g_entered[ID], "enter and exit strictly alternate, beginning with enter");
     VASSERT(C03, VM_SPEC[ID].parent < 0 || !VM_HAS_STUB(VM_SPEC[ID].parent) || g_entered[VM_SPEC[ID].parent], "a state is entered after its parent");
     g_entered[ID] = true; ++g_enter_count[ID];
   }
-  void reenter(typename Base::PlanControl&) { VASSERT(C03, g_entered[ID], "reenter is delivered only to an entered state"); }
+  void reenter(typename Base::PlanControl&) { trace_push(ID, Method::REENTER); VASSERT(C03, g_entered[ID], "reenter is delivered only to an entered state"); }
   void exit(typename Base::PlanControl&) {
+    trace_push(ID, Method::EXIT);
     VASSERT(C03, g_entered[ID], "exit is delivered only to an entered state");
     for (int c = ID + 1; c < VM_NS; ++c) if (VM_SPEC[c].parent == ID) VASSERT(C03, !g_entered[c], "a state is exited after its sub-states");
     g_entered[ID] = false; ++g_exit_count[ID];
   }
   Prong select(const typename Base::Control&) {
+    trace_push(ID, Method::SELECT);
     if (!g_sel_called[ID]) { g_sel_called[ID] = true; g_sel_val[ID] = nd_u8(); VASSUME(g_sel_val[ID] < VM_SPEC[ID].width); }   // documented precondition: below the region width
     return g_sel_val[ID];
   }
@@ -93,6 +125,7 @@ struct St : FSM::State {
     if (ID == g_issuer2) request(c, g_issue_kind2, g_issue_dest2);
   }
   template <typename TC> static void request(TC& c, int kind, int dest) {
+    ++g_requests_issued;
     switch (kind) {
       case 0: c.changeTo((StateID) dest); break;
       case 1: c.restart((StateID) dest); break;
@@ -103,11 +136,19 @@ struct St : FSM::State {
       default: c.schedule((StateID) dest); break;
     }
   }
-  void preUpdate(typename Base::FullControl&)  { VASSERT(C03, g_entered[ID], "preUpdate is delivered only to an entered state"); seq_push(ID, PH_PRE_UPDATE); }
-  void update(typename Base::FullControl& c)   { VASSERT(C03, g_entered[ID], "update is delivered only to an entered state"); seq_push(ID, PH_UPDATE); issue(c); }
-  void postUpdate(typename Base::FullControl&) { VASSERT(C03, g_entered[ID], "postUpdate is delivered only to an entered state"); seq_push(ID, PH_POST_UPDATE); }
-  void preReact(const Ev&, typename Base::EventControl& c)  { VASSERT(C03, g_entered[ID], "preReact is delivered only to an entered state"); seq_push(ID, PH_PRE_REACT);  if (ID == g_consumer && g_consume_phase == PH_PRE_REACT) c.consumeEvent(); }
-  void react(const Ev&, typename Base::EventControl& c)     { VASSERT(C03, g_entered[ID], "react is delivered only to an entered state");    seq_push(ID, PH_REACT);      if (ID == g_consumer && g_consume_phase == PH_REACT) c.consumeEvent(); }
-  void postReact(const Ev&, typename Base::EventControl& c) { VASSERT(C03, g_entered[ID], "postReact is delivered only to an entered state"); seq_push(ID, PH_POST_REACT); if (ID == g_consumer && g_consume_phase == PH_POST_REACT) c.consumeEvent(); }
-  void query(Ev&, typename Base::ConstControl& c) const     { VASSERT(C03, g_entered[ID], "query is delivered only to an entered state");    seq_push(ID, PH_QUERY);      if (ID == g_consumer && g_consume_phase == PH_QUERY) c.consumeQuery(); }
+  void preUpdate(typename Base::FullControl&)  { VASSERT(C03, g_entered[ID], "preUpdate is delivered only to an entered state"); seq_push(ID, PH_PRE_UPDATE); trace_push(ID, Method::PRE_UPDATE); }
+  void update(typename Base::FullControl& c)   { VASSERT(C03, g_entered[ID], "update is delivered only to an entered state"); seq_push(ID, PH_UPDATE); trace_push(ID, Method::UPDATE); issue(c);
+#ifdef VM_PLANS
+    if (ID == g_actor) { if (g_action == 1) c.succeed(); if (g_action == 2) c.fail(); }
+#endif
+  }
+#ifdef VM_PLANS
+  void planSucceeded(typename Base::FullControl&) { ++g_plan_succeeded[ID]; }       // overriding stops the default hand-over to the enclosing region
+  void planFailed(typename Base::FullControl&)    { ++g_plan_failed[ID]; }
+#endif
+  void postUpdate(typename Base::FullControl&) { VASSERT(C03, g_entered[ID], "postUpdate is delivered only to an entered state"); seq_push(ID, PH_POST_UPDATE); trace_push(ID, Method::POST_UPDATE); }
+  void preReact(const Ev&, typename Base::EventControl& c)  { VASSERT(C03, g_entered[ID], "preReact is delivered only to an entered state"); seq_push(ID, PH_PRE_REACT); trace_push(ID, Method::PRE_REACT);  if (ID == g_consumer && g_consume_phase == PH_PRE_REACT) c.consumeEvent(); }
+  void react(const Ev&, typename Base::EventControl& c)     { VASSERT(C03, g_entered[ID], "react is delivered only to an entered state");    seq_push(ID, PH_REACT); trace_push(ID, Method::REACT);      if (ID == g_consumer && g_consume_phase == PH_REACT) c.consumeEvent(); }
+  void postReact(const Ev&, typename Base::EventControl& c) { VASSERT(C03, g_entered[ID], "postReact is delivered only to an entered state"); seq_push(ID, PH_POST_REACT); trace_push(ID, Method::POST_REACT); if (ID == g_consumer && g_consume_phase == PH_POST_REACT) c.consumeEvent(); }
+  void query(Ev&, typename Base::ConstControl& c) const     { VASSERT(C03, g_entered[ID], "query is delivered only to an entered state");    seq_push(ID, PH_QUERY); trace_push(ID, Method::QUERY);      if (ID == g_consumer && g_consume_phase == PH_QUERY) c.consumeQuery(); }
 };
